@@ -17,6 +17,79 @@ use crate::linalg::Matrix;
 use crate::linear::bg_solver::BiconjugateGradientSolver;
 use crate::math::num::RealNumber;
 
+/// Verification hook (cfg `smartcore_verif` only): one outer iteration of `optimize` as the code saw it.
+#[cfg(smartcore_verif)]
+#[derive(Debug, Clone, Default)]
+pub struct VerifLassoIter {
+    /// iterate at the top of the iteration
+    pub w: Vec<f64>,
+    /// bound variables at the top of the iteration
+    pub u: Vec<f64>,
+    /// dual point after the feasibility rescaling
+    pub nu: Vec<f64>,
+    /// primal objective, running dual bound (after the max), duality gap
+    pub pobj: f64,
+    /// running dual bound after this iteration's `max`
+    pub dobj: f64,
+    /// `pobj - dobj`
+    pub gap: f64,
+    /// barrier parameter and previous step length when the gap test is made
+    pub t_before: f64,
+    /// step length of the previous iteration (infinity at the first)
+    pub s_before: f64,
+    /// `pitr` when the PCG tolerance is chosen
+    pub pitr_before: usize,
+    /// true iff the iteration left the loop through the stopping rule (`gap / dobj < tol || gap <= 0`)
+    pub stopped: bool,
+    /// barrier parameter after the update (iterations that go on)
+    pub t: f64,
+    /// PCG tolerance, warm start, returned relative residual and solution
+    pub pcgtol: f64,
+    /// warm start handed to the linear solver
+    pub dxu_in: Vec<f64>,
+    /// value returned by `solve_mut`
+    pub pcg_err: f64,
+    /// Newton direction (dx, du) used by the line search
+    pub dxu: Vec<f64>,
+    /// accepted step length
+    pub s: f64,
+}
+
+/// Verification hook (cfg `smartcore_verif` only): one call of `optimize`.
+#[cfg(smartcore_verif)]
+#[derive(Debug, Clone, Default)]
+pub struct VerifLassoRun {
+    /// penalty actually used (after the `max(epsilon)` floor), tolerance, iteration budget
+    pub lambda: f64,
+    /// tolerance of the stopping rule
+    pub tol: f64,
+    /// iteration budget
+    pub max_iter: usize,
+    /// the centred target the iterations work with
+    pub y: Vec<f64>,
+    /// initial barrier parameter
+    pub t0: f64,
+    /// the recorded iterations, oldest first
+    pub iters: Vec<VerifLassoIter>,
+    /// "gap" (stopping rule), "max_iter" (budget exhausted), "error" (left through `Err`)
+    pub exit: &'static str,
+    /// returned coefficients (empty on error)
+    pub w_final: Vec<f64>,
+}
+
+#[cfg(smartcore_verif)]
+thread_local! {
+    /// Verification hook: `optimize` calls of this thread, oldest first.
+    pub static VERIF_LASSO_RUNS: std::cell::RefCell<Vec<VerifLassoRun>> = std::cell::RefCell::new(Vec::new());
+}
+
+/// Verification hook (cfg `smartcore_verif` only): column vector as `Vec<f64>`.
+#[cfg(smartcore_verif)]
+fn verif_col<T: RealNumber, M: Matrix<T>>(m: &M) -> Vec<f64> {
+    let (n, _) = m.shape();
+    (0..n).map(|i| m.get(i, 0).to_f64().unwrap()).collect()
+}
+
 pub struct InteriorPointOptimizer<T: RealNumber, M: Matrix<T>> {
     ata: M,
     d1: Vec<T>,
@@ -85,6 +158,20 @@ impl<T: RealNumber, M: Matrix<T>> InteriorPointOptimizer<T, M> {
             .max(T::one() / lambda)
             .min(T::two() * p_f64 / T::from(1e-3).unwrap());
 
+        #[cfg(smartcore_verif)]
+        VERIF_LASSO_RUNS.with(|r| {
+            r.borrow_mut().push(VerifLassoRun {
+                lambda: lambda.to_f64().unwrap(),
+                tol: tol.to_f64().unwrap(),
+                max_iter,
+                y: verif_col::<T, M>(&y),
+                t0: t.to_f64().unwrap(),
+                iters: Vec::new(),
+                exit: "error",
+                w_final: Vec::new(),
+            })
+        });
+
         for ntiter in 0..max_iter {
             let mut z = x.matmul(&w);
 
@@ -105,6 +192,28 @@ impl<T: RealNumber, M: Matrix<T>> InteriorPointOptimizer<T, M> {
             dobj = dobj.max(gamma * nu.dot(&nu) - nu.dot(&y));
 
             let gap = pobj - dobj;
+
+            #[cfg(smartcore_verif)]
+            VERIF_LASSO_RUNS.with(|r| {
+                if let Some(run) = r.borrow_mut().last_mut() {
+                    run.iters.push(VerifLassoIter {
+                        w: verif_col::<T, M>(&w),
+                        u: verif_col::<T, M>(&u),
+                        nu: verif_col::<T, M>(&nu),
+                        pobj: pobj.to_f64().unwrap(),
+                        dobj: dobj.to_f64().unwrap(),
+                        gap: gap.to_f64().unwrap(),
+                        t_before: t.to_f64().unwrap(),
+                        s_before: s.to_f64().unwrap(),
+                        pitr_before: pitr,
+                        stopped: gap / dobj < tol || gap <= T::zero(),
+                        ..Default::default()
+                    });
+                    if gap / dobj < tol || gap <= T::zero() {
+                        run.exit = "gap";
+                    }
+                }
+            });
 
             // STOPPING CRITERION
             if gap / dobj < tol || gap <= T::zero() {
@@ -147,7 +256,19 @@ impl<T: RealNumber, M: Matrix<T>> InteriorPointOptimizer<T, M> {
                 pcgtol *= min_pcgtol;
             }
 
+            #[cfg(smartcore_verif)]
+            let verif_dxu_in = verif_col::<T, M>(&dxu);
             let error = self.solve_mut(x, &grad, &mut dxu, pcgtol, pcgmaxi)?;
+            #[cfg(smartcore_verif)]
+            VERIF_LASSO_RUNS.with(|r| {
+                if let Some(it) = r.borrow_mut().last_mut().and_then(|run| run.iters.last_mut()) {
+                    it.t = t.to_f64().unwrap();
+                    it.pcgtol = pcgtol.to_f64().unwrap();
+                    it.dxu_in = verif_dxu_in;
+                    it.pcg_err = error.to_f64().unwrap();
+                    it.dxu = verif_col::<T, M>(&dxu);
+                }
+            });
             if error > pcgtol {
                 pitr = pcgmaxi;
             }
@@ -195,7 +316,23 @@ impl<T: RealNumber, M: Matrix<T>> InteriorPointOptimizer<T, M> {
             w.copy_from(&neww);
             u.copy_from(&newu);
             f.copy_from(&newf);
+            #[cfg(smartcore_verif)]
+            VERIF_LASSO_RUNS.with(|r| {
+                if let Some(it) = r.borrow_mut().last_mut().and_then(|run| run.iters.last_mut()) {
+                    it.s = s.to_f64().unwrap();
+                }
+            });
         }
+
+        #[cfg(smartcore_verif)]
+        VERIF_LASSO_RUNS.with(|r| {
+            if let Some(run) = r.borrow_mut().last_mut() {
+                if run.exit != "gap" {
+                    run.exit = "max_iter";
+                }
+                run.w_final = verif_col::<T, M>(&w);
+            }
+        });
 
         Ok(w)
     }
